@@ -575,7 +575,9 @@ where
     }
     match res {
         Ok(()) => {
-            ctx.say(&format!("replay: part={} case passes", part));
+            if std::env::var("VERIF_VERBOSE").is_ok() {
+                ctx.say(&format!("replay: part={} case passes", part));
+            }
             true
         }
         Err(v) => {
@@ -765,5 +767,23 @@ pub fn no_panic<T>(f: impl FnOnce() -> T) -> Result<T, String> {
             };
             Err(msg)
         }
+    }
+}
+
+/// One scratch directory per calling thread.
+pub struct DirPool {
+    base: PathBuf,
+}
+
+impl DirPool {
+    pub fn new(ctx: &Ctx, tag: &str) -> DirPool {
+        DirPool { base: ctx.fresh_dir(tag) }
+    }
+    pub fn with<T>(&self, f: impl FnOnce(&Path) -> T) -> T {
+        let p = self.base.join(format!("{:?}", std::thread::current().id()).replace(['(', ')'], ""));
+        if !p.exists() {
+            let _ = fs::create_dir_all(&p);
+        }
+        f(&p)
     }
 }
